@@ -80,26 +80,14 @@ struct ctx
     return r;
   }
 
-  // a set through initializer lists only: chunks of at most 8 elements joined with |=
+  // a set through one initializer list
   vp il_mask(ull m) const
   {
     std::vector<unsigned> es;
     for (unsigned i = 0; i < n; ++i)
       if ((m >> i) & 1U)
         es.push_back(i);
-    if (es.size() <= 8)
-      return f.il(es);
-    vp r{f.il(std::vector<unsigned>(es.begin(), es.begin() + 8))};
-    for (std::size_t q = 8; q < es.size(); q += 8)
-    {
-      bool ok = false;
-      r->or_assign(
-          *f.il(std::vector<unsigned>(
-              es.begin() + static_cast<std::ptrdiff_t>(q),
-              es.begin() + static_cast<std::ptrdiff_t>(std::min(q + 8, es.size())))),
-          ok);
-    }
-    return r;
+    return f.il(es);
   }
 
   // members as seen through get, const operator[], operator&(index) and the mutable operator[]
@@ -319,7 +307,7 @@ struct ctx
       }
       else if (c == 'D')
       {
-        if (a.size() > 8) return std::nullopt;
+        if (a.size() > 64) return std::nullopt;
         std::vector<unsigned> es;
         for (auto i : a)
         {
